@@ -28,8 +28,18 @@ extern int mpt_path_add(MPT_STRUCT(path) *path, int add)
 	len = path->off + path->len;
 	
 	if (path->flags & MPT_PATHFLAG(HasArray)) {
+		int flags;
 		arr._buf = (void *) data;
 		--arr._buf;
+		/* separator and end marker must not be written to foreign data */
+		flags = arr._buf->_vptr->get_flags(arr._buf);
+		if ((MPT_ENUM(BufferShared) & flags)
+		 || (MPT_ENUM(BufferImmutable) & flags)) {
+			if (!(data = mpt_array_slice(&arr, 0, arr._buf->_used))) {
+				return MPT_ERROR(BadOperation);
+			}
+			path->base = data;
+		}
 		pre  = 0;
 		post = arr._buf->_used - len;
 		if (post < (size_t) add) {
